@@ -91,7 +91,7 @@ class C30(Prop):
     s = detsched.Scheduler(schedule=case["schedule"], step_limit=300000,
                            trace_files=[files["singleton"], files["activeobject"], files["event"]])
     try:
-      s.run(body)
+      detsched.guarded_run(s, body)
     except (detsched.Deadlock, detsched.StepLimit) as e:
       raise PropertyViolation("no termination: %s" % e, "C30:liveness")
     if s.thread_errors:
